@@ -75,3 +75,137 @@ def call_handler():
         return False
     ok = not missing and all_raise(h.body)
     return ok, ('missing: %r' % missing if missing else ('every handler path raises' if ok else 'a handler path falls through'))
+
+
+# ---------------------------------------------------------------------------------------------- C11: process-wide write set
+WRITE_WHITELIST = {
+    # (file, function qualname) -> what it may write
+    ('mitxgraders/baseclasses.py', 'ObjectWithSchema.register_defaults'): 'cls.default_values (registered class defaults: the documented API)',
+    ('mitxgraders/baseclasses.py', 'ObjectWithSchema.clear_registered_defaults'): 'cls.default_values',
+    ('mitxgraders/baseclasses.py', 'DefaultValuesMeta.__init__'): 'per-class default_values slot at class creation',
+    ('mitxgraders/helpers/calc/math_array.py', 'MathArray.enable_negative_powers'): 'cls._negative_powers, restored in a finally block',
+    ('mitxgraders/formulagrader/formulagrader.py', 'FormulaGrader.set_default_comparer'): 'cls.default_comparer (documented API)',
+    ('mitxgraders/formulagrader/formulagrader.py', 'FormulaGrader.reset_default_comparer'): 'cls.default_comparer (documented API)',
+}
+
+
+def _module_level_names(tree):
+    names = set()
+    for n in tree.body:
+        if isinstance(n, ast.Assign):
+            for t in n.targets:
+                for x in ast.walk(t):
+                    if isinstance(x, ast.Name):
+                        names.add(x.id)
+        elif isinstance(n, (ast.FunctionDef, ast.ClassDef)):
+            names.add(n.name)
+        elif isinstance(n, (ast.Import, ast.ImportFrom)):
+            for a in n.names:
+                names.add((a.asname or a.name).split('.')[0])
+    return names
+
+
+MUTATORS = {'append', 'extend', 'update', 'add', 'clear', 'pop', 'remove', 'insert', 'setdefault', 'discard', 'popitem', 'sort', 'reverse', '__setitem__'}
+
+
+def _scan_function(rel, qual, fn, modnames, classnames, out):
+    """record writes inside fn whose target is process-wide state"""
+    params = {a.arg for a in fn.args.args + fn.args.kwonlyargs} | ({fn.args.vararg.arg} if fn.args.vararg else set()) | ({fn.args.kwarg.arg} if fn.args.kwarg else set())
+    local = set(params)
+    for n in ast.walk(fn):
+        if isinstance(n, ast.Assign):
+            for t in n.targets:
+                if isinstance(t, ast.Name):
+                    local.add(t.id)
+        elif isinstance(n, (ast.For, ast.comprehension)):
+            for x in ast.walk(n.target):
+                if isinstance(x, ast.Name):
+                    local.add(x.id)
+        elif isinstance(n, ast.With):
+            for it in n.items:
+                if it.optional_vars is not None:
+                    for x in ast.walk(it.optional_vars):
+                        if isinstance(x, ast.Name):
+                            local.add(x.id)
+    is_cm = any(isinstance(d, ast.Name) and d.id == 'classmethod' for d in fn.decorator_list)
+
+    def base_name(e):
+        while isinstance(e, (ast.Attribute, ast.Subscript)):
+            e = e.value
+        return e.id if isinstance(e, ast.Name) else None
+
+    for n in ast.walk(fn):
+        if isinstance(n, ast.Global):
+            out.append((rel, qual, n.lineno, 'global ' + ', '.join(n.names)))
+        targets = []
+        if isinstance(n, ast.Assign):
+            targets = n.targets
+        elif isinstance(n, (ast.AugAssign, ast.AnnAssign)):
+            targets = [n.target]
+        elif isinstance(n, ast.Delete):
+            targets = n.targets
+        for t in targets:
+            if isinstance(t, (ast.Attribute, ast.Subscript)):
+                b = base_name(t)
+                txt = ast.unparse(t)
+                if b is None:
+                    continue
+                if (b == 'cls' and is_cm) or b in classnames or (b not in local and b in modnames) or '__class__' in txt:
+                    out.append((rel, qual, n.lineno, 'write to ' + txt))
+        if isinstance(n, ast.Call) and isinstance(n.func, ast.Attribute) and n.func.attr in MUTATORS:
+            b = base_name(n.func.value)
+            txt = ast.unparse(n.func)
+            if b is not None and ((b == 'cls' and is_cm) or b in classnames or (b not in local and b in modnames and b not in ('np', 'random'))):
+                out.append((rel, qual, n.lineno, 'mutating call ' + txt))
+        if isinstance(n, ast.Call) and ast.unparse(n.func) in ('np.seterr', 'np.seterrcall', 'np.random.seed', 'random.seed', 'warnings.simplefilter'):
+            out.append((rel, qual, n.lineno, 'call ' + ast.unparse(n.func)))
+
+
+@static("process-wide state is written only by the documented switches (frame over the whole package)", props=["C11"],
+        note="every write site in mitxgraders/ whose target is a module-level object, a class attribute or an interpreter-wide setting is enumerated from the ASTs and must be in the allow-list "
+             "(register/clear_registered_defaults, set/reset_default_comparer, enable_negative_powers, set_seed); PARSER.cache (memoisation) is covered by the C10 contracts")
+def write_set():
+    root = SRC.repo_path('mitxgraders')
+    sites = []
+    ct = SRC.class_table()
+    classnames = {n for n, c in ct.classes.items() if c.rel}
+    for dirpath, _d, files in os.walk(root):
+        for fn in sorted(files):
+            if not fn.endswith('.py'):
+                continue
+            rel = os.path.relpath(os.path.join(dirpath, fn), SRC.REPO)
+            if '/plugins/' in rel:
+                continue
+            tree = _module(rel)
+            modnames = _module_level_names(tree)
+            for n in tree.body:
+                if isinstance(n, ast.FunctionDef):
+                    _scan_function(rel, n.name, n, modnames, classnames, sites)
+                elif isinstance(n, ast.ClassDef):
+                    for m in n.body:
+                        if isinstance(m, ast.FunctionDef):
+                            _scan_function(rel, n.name + '.' + m.name, m, modnames, classnames, sites)
+    allowed = dict(WRITE_WHITELIST)
+    allowed[('mitxgraders/sampling.py', 'set_seed')] = 'seeding the random streams (documented API)'
+    allowed[('mitxgraders/helpers/calc/expressions.py', 'MathParser.parse')] = 'self.cache (C10)'
+    extra = [s for s in sites if (s[0], s[1]) not in allowed]
+    return (not extra, ('unexpected process-wide write sites: ' + '; '.join('%s:%d %s in %s' % (s[0], s[2], s[3], s[1]) for s in extra[:6])) if extra
+            else '%d write sites, all inside the %d allow-listed functions' % (len(sites), len(allowed)))
+
+
+@static("MathArray.enable_negative_powers restores the class flag in a finally block and MatrixGrader.check_response is its only user", props=["C11", "C14"])
+def neg_powers():
+    fs = SRC.find_function('mitxgraders/helpers/calc/math_array.py::MathArray.enable_negative_powers')
+    tries = [n for n in ast.walk(fs.node) if isinstance(n, ast.Try)]
+    ok_finally = len(tries) == 1 and tries[0].finalbody and any('_negative_powers' in ast.unparse(s) for s in tries[0].finalbody) \
+        and any(isinstance(s, ast.Expr) and isinstance(s.value, ast.Yield) for s in tries[0].body)
+    users = []
+    for dirpath, _d, files in os.walk(SRC.repo_path('mitxgraders')):
+        for fn in files:
+            if fn.endswith('.py'):
+                rel = os.path.relpath(os.path.join(dirpath, fn), SRC.REPO)
+                for n in ast.walk(_module(rel)):
+                    if isinstance(n, ast.Call) and ast.unparse(n.func).endswith('enable_negative_powers'):
+                        users.append(rel)
+    ok_users = sorted(set(users)) == ['mitxgraders/formulagrader/matrixgrader.py']
+    return (bool(ok_finally and ok_users), 'finally restores flag: %s; users: %s' % (bool(ok_finally), sorted(set(users))))
